@@ -239,10 +239,15 @@ pub fn pdfdoc_encodable(pw: &str) -> bool {
 
 /// Password bytes for revisions 5-6: SASLprep, UTF-8, truncated to 127 bytes (Algorithm 2.A step a).
 pub fn utf8_prep(pw: &str) -> Result<Vec<u8>, String> {
-    let p = stringprep::saslprep(pw).map_err(|e| format!("SASLprep: {}", e))?;
-    let mut b = p.as_bytes().to_vec();
+    let mut b = utf8_prep_full(pw)?;
     b.truncate(127);
     Ok(b)
+}
+
+/// SASLprep + UTF-8 without the truncation (to tell whether a password exceeds 127 bytes).
+pub fn utf8_prep_full(pw: &str) -> Result<Vec<u8>, String> {
+    let p = stringprep::saslprep(pw).map_err(|e| format!("SASLprep: {}", e))?;
+    Ok(p.as_bytes().to_vec())
 }
 
 /// Password bytes as the given revision prepares them.
@@ -1123,4 +1128,587 @@ pub fn selftest() -> Result<u64, String> {
         }
     }
     Ok(n)
+}
+
+// ---------------------------------------------------------------------------------------------
+// Case menus shared by the C05 and C06 binaries (documents, handler configurations, passwords,
+// permission words) and the glue that builds lopdf's `EncryptionState` through lopdf's *public API*.
+// This part is harness plumbing, not part of the reference handler above: nothing in it is used by
+// the reference algorithms.
+pub mod menu {
+    use lopdf::encryption::crypt_filters::{Aes128CryptFilter, Aes256CryptFilter, CryptFilter, IdentityCryptFilter, Rc4CryptFilter};
+    use lopdf::{Dictionary, Document, EncryptionState, EncryptionVersion, Object, ObjectId, Permissions, Stream, StringFormat};
+    use serde_json::{json, Value};
+    use std::collections::BTreeMap;
+    use std::sync::Arc;
+
+    /// string / stream lengths around the AES block edges
+    pub const LENS: [usize; 8] = [0, 1, 15, 16, 17, 31, 32, 33];
+
+    pub fn pattern(len: usize, salt: u32) -> Vec<u8> {
+        (0..len).map(|i| ((i as u32 * 7 + salt * 13 + 1) & 0xff) as u8).collect()
+    }
+
+    /// crypt method a configuration names for strings or streams
+    #[derive(Clone, Copy, PartialEq, Eq, Debug, Hash)]
+    pub enum F {
+        Rc4,
+        Aes128,
+        Aes256,
+        Identity,
+    }
+
+    impl F {
+        pub fn name(self) -> &'static str {
+            match self {
+                F::Rc4 => "rc4",
+                F::Aes128 => "aes128",
+                F::Aes256 => "aes256",
+                F::Identity => "identity",
+            }
+        }
+        pub fn from_name(s: &str) -> F {
+            match s {
+                "rc4" => F::Rc4,
+                "aes128" => F::Aes128,
+                "aes256" => F::Aes256,
+                _ => F::Identity,
+            }
+        }
+    }
+
+    #[derive(Clone, Copy, PartialEq, Eq, Debug, Hash)]
+    pub enum Ver {
+        V1,
+        V2(usize),
+        V4,
+        R5,
+        V5,
+    }
+
+    /// One handler configuration as a lopdf user would request it.
+    #[derive(Clone, PartialEq, Eq, Debug, Hash)]
+    pub struct Config {
+        pub ver: Ver,
+        pub stm: F,
+        pub strf: F,
+        /// /Identity is also put into the crypt filter map handed to lopdf (lopdf then writes a CF entry
+        /// named Identity). false: StmF/StrF just name /Identity.
+        pub identity_in_cf: bool,
+        /// the identity filter is registered under the custom name /NoCrypt (C06 only)
+        pub custom_identity: bool,
+        pub em: bool,
+    }
+
+    pub const FILE_KEY: [u8; 32] = [
+        0x3a, 0x91, 0x07, 0xc4, 0x5e, 0xd2, 0x18, 0x6b, 0xf0, 0x2d, 0x84, 0x49, 0xb7, 0x1c, 0xe3, 0x75, 0x0f, 0xa8, 0x56, 0xcd,
+        0x21, 0x9e, 0x63, 0xba, 0x47, 0xd8, 0x0c, 0x95, 0x7e, 0x32, 0xeb, 0x50,
+    ];
+
+    impl Config {
+        pub fn revision(&self) -> i64 {
+            match self.ver {
+                Ver::V1 => 2,
+                Ver::V2(_) => 3,
+                Ver::V4 => 4,
+                Ver::R5 => 5,
+                Ver::V5 => 6,
+            }
+        }
+        pub fn version(&self) -> i64 {
+            match self.ver {
+                Ver::V1 => 1,
+                Ver::V2(_) => 2,
+                Ver::V4 => 4,
+                Ver::R5 | Ver::V5 => 5,
+            }
+        }
+        pub fn key_bits(&self) -> i64 {
+            match self.ver {
+                Ver::V1 => 40,
+                Ver::V2(b) => b as i64,
+                Ver::V4 => 128,
+                Ver::R5 | Ver::V5 => 256,
+            }
+        }
+        pub fn has_filters(&self) -> bool {
+            !matches!(self.ver, Ver::V1 | Ver::V2(_))
+        }
+        /// name under which a method is registered / referenced
+        pub fn filter_name(&self, f: F) -> Vec<u8> {
+            match f {
+                F::Identity => {
+                    if self.custom_identity {
+                        b"NoCrypt".to_vec()
+                    } else {
+                        b"Identity".to_vec()
+                    }
+                }
+                F::Rc4 => b"CFRC4".to_vec(),
+                F::Aes128 | F::Aes256 => b"StdCF".to_vec(),
+            }
+        }
+        pub fn to_json(&self) -> Value {
+            let v = match self.ver {
+                Ver::V1 => "V1".to_string(),
+                Ver::V2(b) => format!("V2/{}", b),
+                Ver::V4 => "V4".to_string(),
+                Ver::R5 => "R5".to_string(),
+                Ver::V5 => "V5".to_string(),
+            };
+            json!({"ver": v, "stm": self.stm.name(), "str": self.strf.name(), "identity_in_cf": self.identity_in_cf,
+                   "custom_identity": self.custom_identity, "encrypt_metadata": self.em})
+        }
+        pub fn from_json(v: &Value) -> Config {
+            let s = v["ver"].as_str().unwrap_or("V1");
+            let ver = match s {
+                "V1" => Ver::V1,
+                "V4" => Ver::V4,
+                "R5" => Ver::R5,
+                "V5" => Ver::V5,
+                _ => Ver::V2(s.trim_start_matches("V2/").parse().unwrap_or(40)),
+            };
+            Config {
+                ver,
+                stm: F::from_name(v["stm"].as_str().unwrap_or("rc4")),
+                strf: F::from_name(v["str"].as_str().unwrap_or("rc4")),
+                identity_in_cf: v["identity_in_cf"].as_bool().unwrap_or(false),
+                custom_identity: v["custom_identity"].as_bool().unwrap_or(false),
+                em: v["encrypt_metadata"].as_bool().unwrap_or(true),
+            }
+        }
+        /// method a crypt filter *name* stands for in this configuration (per the standard)
+        pub fn method_of_name(&self, name: Option<&[u8]>) -> F {
+            if !self.has_filters() {
+                return F::Rc4;
+            }
+            match name {
+                None => F::Identity,
+                Some(n) => {
+                    if n == self.filter_name(self.stm).as_slice() {
+                        self.stm
+                    } else if n == self.filter_name(self.strf).as_slice() {
+                        self.strf
+                    } else {
+                        F::Identity
+                    }
+                }
+            }
+        }
+    }
+
+    /// The configuration space of DESIGN C05: V1; V2 x 12 key lengths; V4 x {RC4, AES-128, Identity}^2 x
+    /// EncryptMetadata (x the two ways of naming Identity); R5; V5 x {AES-256, Identity}^2.
+    pub fn configs() -> Vec<Config> {
+        let mut out = vec![Config { ver: Ver::V1, stm: F::Rc4, strf: F::Rc4, identity_in_cf: false, custom_identity: false, em: true }];
+        for bits in (40..=128).step_by(8) {
+            out.push(Config { ver: Ver::V2(bits), stm: F::Rc4, strf: F::Rc4, identity_in_cf: false, custom_identity: false, em: true });
+        }
+        for em in [true, false] {
+            for stm in [F::Rc4, F::Aes128, F::Identity] {
+                for strf in [F::Rc4, F::Aes128, F::Identity] {
+                    let id = stm == F::Identity || strf == F::Identity;
+                    for in_cf in if id { vec![false, true] } else { vec![false] } {
+                        out.push(Config { ver: Ver::V4, stm, strf, identity_in_cf: in_cf, custom_identity: false, em });
+                    }
+                }
+            }
+        }
+        for em in [true, false] {
+            out.push(Config { ver: Ver::R5, stm: F::Aes256, strf: F::Aes256, identity_in_cf: false, custom_identity: false, em });
+        }
+        for em in [true, false] {
+            for stm in [F::Aes256, F::Identity] {
+                for strf in [F::Aes256, F::Identity] {
+                    let id = stm == F::Identity || strf == F::Identity;
+                    for in_cf in if id { vec![false, true] } else { vec![false] } {
+                        out.push(Config { ver: Ver::V5, stm, strf, identity_in_cf: in_cf, custom_identity: false, em });
+                    }
+                }
+            }
+        }
+        out
+    }
+
+    /// Build lopdf's EncryptionState for a configuration through the public API only.
+    pub fn build_state(cfg: &Config, doc: &Document, user: &str, owner: &str, perm_bits: u64) -> Result<EncryptionState, String> {
+        let permissions = Permissions::from_bits_truncate(perm_bits);
+        let mut cfs: BTreeMap<Vec<u8>, Arc<dyn CryptFilter>> = BTreeMap::new();
+        for f in [cfg.stm, cfg.strf] {
+            let name = cfg.filter_name(f);
+            match f {
+                F::Identity => {
+                    if cfg.identity_in_cf || cfg.custom_identity {
+                        cfs.insert(name, Arc::new(IdentityCryptFilter));
+                    }
+                }
+                F::Rc4 => {
+                    cfs.insert(name, Arc::new(Rc4CryptFilter));
+                }
+                F::Aes128 => {
+                    cfs.insert(name, Arc::new(Aes128CryptFilter));
+                }
+                F::Aes256 => {
+                    cfs.insert(name, Arc::new(Aes256CryptFilter));
+                }
+            }
+        }
+        let version = match cfg.ver {
+            Ver::V1 => EncryptionVersion::V1 { document: doc, owner_password: owner, user_password: user, permissions },
+            Ver::V2(bits) => EncryptionVersion::V2 { document: doc, owner_password: owner, user_password: user, key_length: bits, permissions },
+            Ver::V4 => EncryptionVersion::V4 {
+                document: doc,
+                encrypt_metadata: cfg.em,
+                crypt_filters: cfs,
+                stream_filter: cfg.filter_name(cfg.stm),
+                string_filter: cfg.filter_name(cfg.strf),
+                owner_password: owner,
+                user_password: user,
+                permissions,
+            },
+            #[allow(deprecated)]
+            Ver::R5 => EncryptionVersion::R5 {
+                encrypt_metadata: cfg.em,
+                crypt_filters: cfs,
+                file_encryption_key: &FILE_KEY,
+                stream_filter: cfg.filter_name(cfg.stm),
+                string_filter: cfg.filter_name(cfg.strf),
+                owner_password: owner,
+                user_password: user,
+                permissions,
+            },
+            Ver::V5 => EncryptionVersion::V5 {
+                encrypt_metadata: cfg.em,
+                crypt_filters: cfs,
+                file_encryption_key: &FILE_KEY,
+                stream_filter: cfg.filter_name(cfg.stm),
+                string_filter: cfg.filter_name(cfg.strf),
+                owner_password: owner,
+                user_password: user,
+                permissions,
+            },
+        };
+        match crate::util::guard(|| EncryptionState::try_from(version)) {
+            Ok(Ok(s)) => Ok(s),
+            Ok(Err(e)) => Err(format!("EncryptionState::try_from: {:?}", e)),
+            Err(p) => Err(p),
+        }
+    }
+
+    /// The eight permission flags lopdf exposes (bit values of the P word).
+    pub const FLAGS: [u64; 8] = [1 << 2, 1 << 3, 1 << 4, 1 << 5, 1 << 8, 1 << 9, 1 << 10, 1 << 11];
+
+    pub fn all_flags() -> u64 {
+        FLAGS.iter().sum()
+    }
+
+    /// all, none, each single flag
+    pub fn perm_menu() -> Vec<u64> {
+        let mut v = vec![all_flags(), 0];
+        v.extend(FLAGS);
+        v
+    }
+
+    /// all 256 conforming permission words (as flag sets)
+    pub fn perm_all256() -> Vec<u64> {
+        (0u32..256).map(|m| (0..8).filter(|i| m & (1 << i) != 0).map(|i| FLAGS[i]).sum()).collect()
+    }
+
+    /// The conforming 32-bit P word for a flag set: bits 7-8 and 13-32 set, bits 1-2 clear.
+    pub fn p_word(flags: u64) -> i32 {
+        ((flags as u32) | 0xFFFF_F0C0) as i32
+    }
+
+    #[derive(Clone, Copy, PartialEq, Eq, Debug, Hash)]
+    pub enum DocKind {
+        Strings,
+        Streams,
+        StreamDict,
+        Ids,
+        Crypt,
+        Page,
+    }
+
+    impl DocKind {
+        pub fn name(self) -> &'static str {
+            match self {
+                DocKind::Strings => "strings",
+                DocKind::Streams => "streams",
+                DocKind::StreamDict => "stream_dict_strings",
+                DocKind::Ids => "ids",
+                DocKind::Crypt => "crypt_override",
+                DocKind::Page => "page",
+            }
+        }
+        pub fn from_name(s: &str) -> DocKind {
+            match s {
+                "strings" => DocKind::Strings,
+                "streams" => DocKind::Streams,
+                "stream_dict_strings" => DocKind::StreamDict,
+                "ids" => DocKind::Ids,
+                "crypt_override" => DocKind::Crypt,
+                _ => DocKind::Page,
+            }
+        }
+        pub const ALL: [DocKind; 6] = [DocKind::Strings, DocKind::Streams, DocKind::StreamDict, DocKind::Ids, DocKind::Crypt, DocKind::Page];
+    }
+
+    fn s(len: usize, salt: u32, hex: bool) -> Object {
+        Object::String(pattern(len, salt), if hex { StringFormat::Hexadecimal } else { StringFormat::Literal })
+    }
+
+    fn dict(entries: Vec<(&str, Object)>) -> Dictionary {
+        let mut d = Dictionary::new();
+        for (k, v) in entries {
+            d.set(k, v);
+        }
+        d
+    }
+
+    /// Document menu (DESIGN C05): every path of encrypt_object / decrypt_object.
+    /// `cfg` only matters for `Crypt` (the override names must exist in the configuration).
+    pub fn build_doc(kind: DocKind, cfg: &Config, id0: &[u8], big_ids: bool) -> Document {
+        let mut doc = Document::with_version("1.7");
+        let mut objs: Vec<(ObjectId, Object)> = vec![];
+        match kind {
+            DocKind::Strings => {
+                let mut d = dict(vec![("Type", Object::Name(b"Catalog".to_vec()))]);
+                let mut arr = vec![];
+                let mut sub = Dictionary::new();
+                for (i, len) in LENS.iter().enumerate() {
+                    d.set(format!("S{}", len), s(*len, i as u32, i % 2 == 1));
+                    arr.push(s(*len, 10 + i as u32, i % 2 == 0));
+                    sub.set(format!("T{}", len), s(*len, 20 + i as u32, false));
+                }
+                sub.set("Deep", Object::Array(vec![Object::Dictionary(dict(vec![("X", s(17, 31, false)), ("N", Object::Integer(5))]))]));
+                arr.push(Object::Array(vec![s(16, 32, true), Object::Null, s(0, 0, false)]));
+                d.set("Arr", Object::Array(arr.clone()));
+                d.set("Sub", Object::Dictionary(sub));
+                objs.push(((1, 0), Object::Dictionary(d)));
+                objs.push(((2, 0), Object::Array(arr)));
+                for (i, len) in LENS.iter().enumerate() {
+                    objs.push(((3 + i as u32, 0), s(*len, 40 + i as u32, i % 2 == 0)));
+                }
+            }
+            DocKind::Streams => {
+                objs.push(((1, 0), Object::Dictionary(dict(vec![("Type", Object::Name(b"Catalog".to_vec())), ("Metadata", Object::Reference((12, 0)))]))));
+                objs.push(((2, 0), Object::Stream(Stream::new(Dictionary::new(), (0u8..=255).collect()))));
+                for (i, len) in LENS.iter().enumerate() {
+                    objs.push(((3 + i as u32, 0), Object::Stream(Stream::new(dict(vec![("K", Object::Integer(i as i64))]), pattern(*len, 50 + i as u32)))));
+                }
+                let xml = b"<?xpacket begin='' id='W5M0MpCehiHzreSzNTczkc9d'?><x:xmpmeta xmlns:x='adobe:ns:meta/'/><?xpacket end='w'?>".to_vec();
+                objs.push((
+                    (12, 0),
+                    Object::Stream(Stream::new(dict(vec![("Type", Object::Name(b"Metadata".to_vec())), ("Subtype", Object::Name(b"XML".to_vec()))]), xml)),
+                ));
+            }
+            DocKind::StreamDict => {
+                objs.push(((1, 0), Object::Dictionary(dict(vec![("Type", Object::Name(b"Catalog".to_vec()))]))));
+                for (i, len) in LENS.iter().enumerate() {
+                    let d = dict(vec![
+                        ("F", s(*len, 60 + i as u32, false)),
+                        ("A", Object::Array(vec![s(*len, 70 + i as u32, true)])),
+                        ("D", Object::Dictionary(dict(vec![("UF", s(*len, 80 + i as u32, false))]))),
+                    ]);
+                    objs.push(((2 + i as u32, 0), Object::Stream(Stream::new(d, pattern(20, 90 + i as u32)))));
+                }
+            }
+            DocKind::Ids => {
+                let mut ids: Vec<ObjectId> =
+                    vec![(1, 0), (255, 0), (256, 0), (65536, 0), (2, 1), (257, 65535), (65537, 1), (65538, 65535), (254, 65535), (3, 1)];
+                if big_ids {
+                    // in-memory only: beyond the 3 low-order bytes Algorithm 1 uses
+                    ids.push((16777217, 0));
+                    ids.push((16777472, 2));
+                }
+                for (i, id) in ids.iter().enumerate() {
+                    let d = dict(vec![("S", s(17, 100 + i as u32, false)), ("T", s(3, 110 + i as u32, true))]);
+                    if i % 2 == 0 {
+                        objs.push((*id, Object::Dictionary(d)));
+                    } else {
+                        objs.push((*id, Object::Stream(Stream::new(Dictionary::new(), pattern(33, 120 + i as u32)))));
+                    }
+                }
+            }
+            DocKind::Crypt => {
+                objs.push(((1, 0), Object::Dictionary(dict(vec![("Type", Object::Name(b"Catalog".to_vec())), ("S", s(20, 130, false))]))));
+                let named = cfg.filter_name(cfg.strf);
+                let parms = |name: Option<&[u8]>| {
+                    let mut p = dict(vec![("Type", Object::Name(b"CryptFilterDecodeParms".to_vec()))]);
+                    if let Some(n) = name {
+                        p.set("Name", Object::Name(n.to_vec()));
+                    }
+                    Object::Dictionary(p)
+                };
+                let mk = |filter: Object, p: Option<Object>, salt: u32| {
+                    let mut d = dict(vec![("Filter", filter)]);
+                    if let Some(p) = p {
+                        d.set("DecodeParms", p);
+                    }
+                    Object::Stream(Stream::new(d, pattern(40, salt)))
+                };
+                objs.push(((2, 0), mk(Object::Name(b"Crypt".to_vec()), Some(parms(Some(&named))), 131)));
+                objs.push(((3, 0), mk(Object::Name(b"Crypt".to_vec()), Some(parms(Some(b"Identity"))), 132)));
+                objs.push(((4, 0), mk(Object::Name(b"Crypt".to_vec()), Some(parms(None)), 133)));
+                objs.push(((5, 0), mk(Object::Array(vec![Object::Name(b"Crypt".to_vec())]), Some(parms(Some(&named))), 134)));
+                objs.push(((6, 0), Object::Stream(Stream::new(Dictionary::new(), pattern(40, 135)))));
+            }
+            DocKind::Page => {
+                objs.push(((1, 0), Object::Dictionary(dict(vec![("Type", Object::Name(b"Catalog".to_vec())), ("Pages", Object::Reference((2, 0)))]))));
+                objs.push((
+                    (2, 0),
+                    Object::Dictionary(dict(vec![
+                        ("Type", Object::Name(b"Pages".to_vec())),
+                        ("Kids", Object::Array(vec![Object::Reference((3, 0))])),
+                        ("Count", Object::Integer(1)),
+                    ])),
+                ));
+                objs.push((
+                    (3, 0),
+                    Object::Dictionary(dict(vec![
+                        ("Type", Object::Name(b"Page".to_vec())),
+                        ("Parent", Object::Reference((2, 0))),
+                        ("MediaBox", Object::Array(vec![0.into(), 0.into(), 200.into(), 200.into()])),
+                        ("Contents", Object::Reference((4, 0))),
+                        ("Resources", Object::Dictionary(dict(vec![("Font", Object::Dictionary(dict(vec![("F1", Object::Reference((5, 0)))])))]))),
+                    ])),
+                ));
+                objs.push((
+                    (4, 0),
+                    Object::Stream(Stream::new(Dictionary::new(), b"BT /F1 12 Tf 20 100 Td (Hello, encrypted world) Tj ET".to_vec())),
+                ));
+                objs.push((
+                    (5, 0),
+                    Object::Dictionary(dict(vec![
+                        ("Type", Object::Name(b"Font".to_vec())),
+                        ("Subtype", Object::Name(b"Type1".to_vec())),
+                        ("BaseFont", Object::Name(b"Helvetica".to_vec())),
+                    ])),
+                ));
+                let mut author = vec![0xFE, 0xFF];
+                for u in "J\u{fc}rgen \u{10c}apek".encode_utf16() {
+                    author.extend(u.to_be_bytes());
+                }
+                objs.push((
+                    (6, 0),
+                    Object::Dictionary(dict(vec![
+                        ("Title", Object::string_literal("A title (with parens) longer than 16 bytes\\")),
+                        ("Author", Object::String(author, StringFormat::Hexadecimal)),
+                        ("CreationDate", Object::string_literal("D:20261003120000+02'00'")),
+                    ])),
+                ));
+                doc.trailer.set("Info", Object::Reference((6, 0)));
+            }
+        }
+        for (id, o) in objs {
+            doc.max_id = doc.max_id.max(id.0);
+            doc.objects.insert(id, o);
+        }
+        doc.trailer.set("Root", Object::Reference((1, 0)));
+        let id1: Vec<u8> = id0.iter().map(|b| b ^ 0x5a).collect();
+        doc.trailer.set(
+            "ID",
+            Object::Array(vec![Object::String(id0.to_vec(), StringFormat::Hexadecimal), Object::String(id1, StringFormat::Hexadecimal)]),
+        );
+        doc
+    }
+
+    pub fn id_of_len(n: usize) -> Vec<u8> {
+        (0..n).map(|i| (0xC3u8).wrapping_add((i * 29) as u8)).collect()
+    }
+
+    /// What a leaf (string or stream body) of a plaintext document is, and which method the
+    /// configuration assigns to it under the standard's rules.
+    #[derive(Clone, Copy, PartialEq, Eq, Debug)]
+    pub enum Leaf {
+        Str,
+        StrInStreamDict,
+        Body,
+    }
+
+    /// Walk a plaintext object and the corresponding object of another document in parallel and call
+    /// `f(path, leaf kind, nominal method, plaintext bytes, other bytes)` for every string / stream body.
+    /// Returns false if the two objects do not have the same shape.
+    pub fn zip_leaves(cfg: &Config, plain: &Object, other: &Object, path: &str, f: &mut dyn FnMut(&str, Leaf, F, &[u8], &[u8])) -> bool {
+        zip_inner(cfg, plain, other, path, false, f)
+    }
+
+    fn zip_inner(cfg: &Config, plain: &Object, other: &Object, path: &str, in_sd: bool, f: &mut dyn FnMut(&str, Leaf, F, &[u8], &[u8])) -> bool {
+        match (plain, other) {
+            (Object::String(a, _), Object::String(b, _)) => {
+                let m = if cfg.has_filters() { cfg.strf } else { F::Rc4 };
+                f(path, if in_sd { Leaf::StrInStreamDict } else { Leaf::Str }, m, a, b);
+                true
+            }
+            (Object::Array(a), Object::Array(b)) => {
+                a.len() == b.len() && a.iter().zip(b.iter()).enumerate().all(|(i, (x, y))| zip_inner(cfg, x, y, &format!("{}[{}]", path, i), in_sd, f))
+            }
+            (Object::Dictionary(a), Object::Dictionary(b)) => zip_dict(cfg, a, b, path, in_sd, f),
+            (Object::Stream(a), Object::Stream(b)) => {
+                let m = stream_method(cfg, &a.dict);
+                f(&format!("{}.body", path), Leaf::Body, m, &a.content, &b.content);
+                zip_dict(cfg, &a.dict, &b.dict, &format!("{}.dict", path), true, f)
+            }
+            (a, b) => std::mem::discriminant(a) == std::mem::discriminant(b),
+        }
+    }
+
+    fn zip_dict(cfg: &Config, a: &Dictionary, b: &Dictionary, path: &str, in_sd: bool, f: &mut dyn FnMut(&str, Leaf, F, &[u8], &[u8])) -> bool {
+        for (k, x) in a.iter() {
+            match b.get(k) {
+                Ok(y) => {
+                    if !zip_inner(cfg, x, y, &format!("{}/{}", path, String::from_utf8_lossy(k)), in_sd, f) {
+                        return false;
+                    }
+                }
+                Err(_) => return false,
+            }
+        }
+        true
+    }
+
+    /// Method the configuration assigns to the body of a stream with this (plaintext) dictionary.
+    pub fn stream_method(cfg: &Config, d: &Dictionary) -> F {
+        if !cfg.has_filters() {
+            return F::Rc4;
+        }
+        let has_crypt = match d.get(b"Filter") {
+            Ok(Object::Name(n)) => n == b"Crypt",
+            Ok(Object::Array(a)) => a.iter().any(|x| matches!(x, Object::Name(n) if n == b"Crypt")),
+            _ => false,
+        };
+        if has_crypt {
+            let name = match d.get(b"DecodeParms") {
+                Ok(Object::Dictionary(p)) => match p.get(b"Name") {
+                    Ok(Object::Name(n)) => Some(n.clone()),
+                    _ => None,
+                },
+                _ => None,
+            };
+            return cfg.method_of_name(name.as_deref());
+        }
+        if !cfg.em && matches!(d.get(b"Type"), Ok(Object::Name(n)) if n == b"Metadata") {
+            return F::Identity;
+        }
+        cfg.stm
+    }
+
+    /// Password pairs (user, owner) of DESIGN C05.
+    pub fn password_pairs() -> Vec<(&'static str, String, String)> {
+        let u33: String = (0..33).map(|i| (b'a' + (i % 26) as u8) as char).collect();
+        let o33: String = (0..33).map(|i| (b'A' + (i % 26) as u8) as char).collect();
+        let u128: String = (0..128).map(|i| (b'0' + (i % 10) as u8) as char).collect();
+        let o128: String = (0..128).map(|i| (b'!' + (i % 14) as u8) as char).collect();
+        vec![
+            ("both_empty", "".into(), "".into()),
+            ("distinct", "user".into(), "owner".into()),
+            ("same", "same-pw".into(), "same-pw".into()),
+            ("empty_user", "".into(), "owner".into()),
+            ("empty_owner", "user".into(), "".into()),
+            ("len33", u33, o33),
+            ("len128", u128, o128),
+            ("non_latin", "\u{43f}\u{430}\u{440}\u{43e}\u{43b}\u{44c}".into(), "\u{432}\u{43b}\u{430}\u{434}\u{435}\u{43b}\u{435}\u{446}".into()),
+            ("latin1", "p\u{e4}ssw\u{f6}rd".into(), "\u{f6}wn\u{e9}r\u{a3}".into()),
+        ]
+    }
 }
